@@ -1452,3 +1452,91 @@ Proof.
                       (w_env w) sc members (w_st w) skip mains) as [[s' handed] ok] eqn:Hw.
   inversion H; subst. cbn [w_mgr w_env w_st]. split; [reflexivity|]. exists handed, ok. split; reflexivity.
 Qed.
+
+(* ---- bulk_meta_tiles ------------------------------------------------------------------------------------ *)
+
+Section Bulk.
+Variable Q : Z.
+Variable m : mgr.
+Variable ev : env.
+Variable sc : nat -> outcome.
+
+(* the downloads of one meta tile: the log grows by singletons; when no download fails every tile of the meta tile
+   has been asked for *)
+Lemma bulk_query_log : forall mt log acc log' e acc',
+  bulk_query m sc log acc mt = (log', e, acc') ->
+  exists new, log' = new ++ log /\ (forall entry, In entry new -> exists t, In t mt /\ entry = [t]) /\
+              (e = None -> forall t, In t mt -> In [t] new).
+Proof.
+  induction mt as [|t r IH]; intros log acc log' e acc' H; cbn [bulk_query] in H.
+  - inversion H; subst. exists []. split; [reflexivity|]. split; [intros ? [] | intros _ ? []].
+  - destruct (sc (length log)) as [c au v| | |].
+    + destruct (IH _ _ _ _ _ H) as [new [Hl [Hin Hall]]]. exists (new ++ [[t]]). rewrite Hl, <- app_assoc. split; [reflexivity|]. split.
+      * intros en He. apply in_app_or in He. destruct He as [He|[<-|[]]].
+        -- destruct (Hin en He) as [x [Hx ->]]. exists x. split; [right; exact Hx | reflexivity].
+        -- exists t. split; [left; reflexivity | reflexivity].
+      * intros He x [<-|Hx]; apply in_or_app; [right; left; reflexivity | left; exact (Hall He x Hx)].
+    + inversion H; subst. exists [[t]]. split; [reflexivity|]. split; [|discriminate].
+      intros en [<-|[]]. exists t. split; [left; reflexivity | reflexivity].
+    + destruct (IH _ _ _ _ _ H) as [new [Hl [Hin Hall]]]. exists (new ++ [[t]]). rewrite Hl, <- app_assoc. split; [reflexivity|]. split.
+      * intros en He. apply in_app_or in He. destruct He as [He|[<-|[]]].
+        -- destruct (Hin en He) as [x [Hx ->]]. exists x. split; [right; exact Hx | reflexivity].
+        -- exists t. split; [left; reflexivity | reflexivity].
+      * intros He x [<-|Hx]; apply in_or_app; [right; left; reflexivity | left; exact (Hall He x Hx)].
+    + inversion H; subst. exists [[t]]. split; [reflexivity|]. split; [|discriminate].
+      intros en [<-|[]]. exists t. split; [left; reflexivity | reflexivity].
+Qed.
+
+Lemma bulk_query_err : forall mt log acc log' e acc',
+  bulk_query m sc log acc mt = (log', Some e, acc') -> e = ESource \/ e = EBody.
+Proof.
+  induction mt as [|t r IH]; intros log acc log' e acc' H; cbn [bulk_query] in H; [discriminate|].
+  destruct (sc (length log)); try (exact (IH _ _ _ _ _ H)); inversion H; subst; [left | right]; reflexivity.
+Qed.
+
+Lemma bulk_query_len : forall mt log acc log' e acc',
+  bulk_query m sc log acc mt = (log', e, acc') ->
+  (length log + (match mt with [] => 0 | _ => 1 end) <= length log')%nat.
+Proof.
+  induction mt as [|t r IH]; intros log acc log' e acc' H; cbn [bulk_query] in H; [inversion H; lia|].
+  destruct (sc (length log)); try (apply IH in H; cbn [length] in H; destruct r; lia); inversion H; subst; cbn [length]; lia.
+Qed.
+
+(* a meta tile with a missing or stale tile: every tile of it is downloaded again (or the request fails and the
+   cache is left as it was) *)
+Lemma bulk_meta_refetched : forall s mt a,
+  In a mt -> tm_is_cached Q m ev (s_cache s) a = Some false ->
+  match create_bulk_meta Q m ev sc s mt with
+  | Cont s' cr => exists new, s_log s' = new ++ s_log s /\ forall t, In t mt -> In [t] new
+  | Stop s' e => (e = ESource \/ e = EBody) /\ s_cache s' = s_cache s /\ exists new, s_log s' = new ++ s_log s /\ new <> []
+  end.
+Proof.
+  intros s mt a Ha Hc. unfold create_bulk_meta.
+  rewrite (all_cached_false_of Q m ev _ _ a (is_cached_some_thr Q m ev _ _ _ Hc) Ha Hc).
+  destruct (bulk_query m sc (s_log s) [] mt) as [[log' e] acc] eqn:Hq.
+  destruct (bulk_query_log _ _ _ _ _ _ Hq) as [new [Hl [Hin Hall]]].
+  destruct e as [e|].
+  - cbn [s_cache s_log]. split; [exact (bulk_query_err _ _ _ _ _ _ Hq)|]. split; [reflexivity|].
+    exists new. split; [exact Hl|]. intros ->. cbn [app] in Hl.
+    pose proof (bulk_query_len _ _ _ _ _ _ Hq) as Hlen. rewrite Hl in Hlen. destruct mt; [destruct Ha | lia].
+  - cbn [s_log]. exists new. split; [exact Hl | exact (Hall eq_refl)].
+Qed.
+
+(* stored are only tiles whose own upstream answer is cacheable *)
+Lemma store_bulk_untouched : forall acc c a,
+  (forall v, ~ In (a, v, true) acc) -> get (store_bulk Q m ev c acc) a = get c a.
+Proof.
+  induction acc as [|[[t v] cb] r IH]; intros c a H; cbn [store_bulk]; [reflexivity|].
+  rewrite IH by (intros v0 Hin; exact (H v0 (or_intror Hin))).
+  destruct cb; [|reflexivity]. unfold store_tile. rewrite get_put.
+  destruct (addr_eqb a t) eqn:E; [|reflexivity]. apply addr_eqb_eq in E. subst. exfalso. exact (H v (or_introl eq_refl)).
+Qed.
+
+End Bulk.
+
+Example ex_bulk_request :
+  (* a0 stale: the four tiles of the meta tile are downloaded one by one; the second answer is not cacheable *)
+  load_tile_coords_bulk Ex.q Ex.m_rel_meta Ex.ev (fun k => UOk (negb (Nat.eqb k 1)) false (Z.of_nat k)) Ex.block Ex.s0 [Ex.a0] =
+  (mkSt ((Ex.a1, mkEntry 3 4000000040) :: (Ex.a0, mkEntry 2 4000000040) :: (Ex.a2, mkEntry 0 4000000040) :: Ex.c)
+        [[Ex.a1]; [Ex.a0]; [Ex.a3]; [Ex.a2]], Served [Some 2]).
+Proof. vm_compute. reflexivity. Qed.
